@@ -391,9 +391,12 @@ func crDumpDB(db *badger.DB) []crStored {
 		}
 		id := fmt.Sprintf("%x@%d", e.Key, e.Version)
 		if ix, dup := seenAt[id]; dup {
-			// a value-log GC write-back next to the original entry: show a readable copy
-			if out[ix].rderr != "" && e.ReadErr == "" {
-				out[ix] = crStored{key: string(e.Key), ver: e.Version, del: e.Meta&1 != 0, val: e.Value}
+			// a value-log GC write-back next to the original entry (same key and version, the
+			// original's value pointer is stale): show the copy DB.get serves
+			if out[ix].rderr != "" || e.ReadErr != "" || !bytes.Equal(out[ix].val, e.Value) {
+				if g, ok, err := badger.VerifGetAt(db, e.Key, e.Version); err == nil && ok && g.Version == e.Version {
+					out[ix] = crStored{key: string(g.Key), ver: g.Version, del: g.Meta&1 != 0, val: g.Value, rderr: g.ReadErr}
+				}
 			}
 			return
 		}
